@@ -647,7 +647,7 @@ class Symex:
         if call.trait in ("core::iter::traits::iterator::Iterator", "core::iter::traits::double_ended::DoubleEndedIterator", "core::iter::traits::exact_size::ExactSizeIterator"):
             if self.concrete_iters:
                 from . import citer
-                r = citer.m_next(self, st, call, args) if call.method == "next" else citer.consumer(self, st, call, args)
+                r = citer.m_next(self, st, call, args) if call.method == "next" else citer.m_next_back(self, st, call, args) if call.method == "next_back" else citer.consumer(self, st, call, args)
                 if r is not NotImplemented:
                     yield from r
                     return
@@ -1589,6 +1589,34 @@ def logging_off(ex):
     ex.models["core::cmp::PartialOrd::le"] = le
 
 
+def m_option_eq(ex, st, call, args):
+    """<Option<T> as PartialEq>::eq on two options whose variants are known: None == None; Some(x) == Some(x) for one and the same ground term
+    (opt-in: fold_ground_eq / assume_reflexive); a Some never equals a None"""
+    def val(a):
+        v = ex.canon(st, ex.deref_val(st, a))
+        return v if v[0] == "adt" and v[1] == "core::option::Option" else None
+    a, b = val(args[0]), val(args[1])
+    if a is None or b is None:
+        return NotImplemented
+    if a[2] != b[2]:
+        return _ret(st, ("const", False))
+    if a[2] == "None":
+        return _ret(st, ("const", True))
+    strip = lambda x: x[1] if x[0] == "&" else x
+    if (ex.fold_ground_eq or ex.assume_reflexive) and strip(a[3][0]) == strip(b[3][0]):
+        return _ret(st, ("const", True))
+    return NotImplemented
+
+
+def m_result_is(ok):
+    def model(ex, st, call, args):
+        v = ex.canon(st, ex.deref_val(st, args[0]))
+        if v[0] == "adt" and v[1] == "core::result::Result":
+            return _ret(st, ("const", (v[2] == "Ok") == ok))
+        return NotImplemented
+    return model
+
+
 def m_bool_then(ex, st, call, args):
     """bool::then(c, f) = if c { Some(f()) } else { None }"""
     try:
@@ -1767,6 +1795,9 @@ DEFAULT_MODELS = {
     "core::option::Option::<T>::or": m_option_or,
     "core::option::Option::<T>::map_or": m_option_map_or,
     "core::bool::<impl bool>::then": m_bool_then,
+    "<core::option::Option<T> as core::cmp::PartialEq>::eq": m_option_eq,
+    "core::result::Result::<T, E>::is_ok": m_result_is(True),
+    "core::result::Result::<T, E>::is_err": m_result_is(False),
     "core::option::Option::<T>::is_some_and": m_option_is_and(False),
     "core::option::Option::<T>::is_none_or": m_option_is_and(True),
     "core::option::Option::<T>::unwrap_or_else": m_option_unwrap_or_else,
